@@ -228,6 +228,9 @@ def r8(ctx):
     for n in cfg.nodes:
         if n.kind == "stmt" and isinstance(n.ast, ast.Assign) and n is not nu and uname in n.defs and cfg.enclosing_loops(n):
             scaled = (n, b.term(n.ast.value, n))
+        elif n.kind == "stmt" and isinstance(n.ast, ast.AugAssign) and isinstance(n.ast.target, ast.Name) and n.ast.target.id == uname \
+                and isinstance(n.ast.op, ast.Mult) and cfg.enclosing_loops(n):
+            scaled = (n, tm.mul(b.name_term(uname, n), b.term(n.ast.value, n)))      # u *= scale
     if scaled is None:
         ctx.fail(sv, "U is not rescaled after a rho update (the scaled dual variable must follow rho)", role="rho:rescale",
                  expected="u = (rho_old / rho_new) * u")
